@@ -22,7 +22,7 @@ def seeded():
     out = ["| Change | Breaks | What it needs to manifest (short) | Detected by (quick tier) |", "|--------|--------|-----------------------------------|--------------------------|"]
     for path in sorted(glob.glob(os.path.join(ROOT, "seeded", "*", "meta.json"))):
         m = json.load(open(path))
-        if m["name"].startswith("revert"): continue
+        if m["name"].startswith("revert") or "breaks_property" not in m: continue
         need = re.sub(r"\s+", " ", m.get("needs_to_manifest", ""))
         need = re.sub(r"[|`*#]", "", need)[:140]
         det = ", ".join(m.get("detected_by", [])) or "**missed**"
@@ -34,6 +34,15 @@ def seeded():
         m = json.load(open(path))
         det = ", ".join(m.get("detected_by", [])) or "—"
         out.append(f"| {m['name']} | {', '.join(m['breaks_properties'])} | {det} | {m.get('note', '')[:120]} |")
+    harmless = sorted(glob.glob(os.path.join(ROOT, "seeded", "harmless-*", "meta.json")))
+    if harmless:
+        out.append("")
+        out.append("| Behaviour-preserving change | What it is (short) | Checks run (quick) | Alarms |")
+        out.append("|-----------------------------|--------------------|--------------------|--------|")
+        for path in harmless:
+            m = json.load(open(path))
+            d = re.sub(r"[|`*#]", "", re.sub(r"\s+", " ", m.get("description", "")))[:150]
+            out.append(f"| {m['name']} | {d} | {len(m.get('results', {}))} | {', '.join(m.get('alarms', [])) or 'none'} |")
     return "\n".join(out)
 
 def fixes():
